@@ -904,6 +904,10 @@ def run(ctx):
     ctx.assumptions += [
         'os._exit(k) with k a multiple of 256 is reported by the operating system as exit code 0: no parent can see it '
         '(Pool.exit_code_of models the mod 256; c14_abnormal_codes excludes it; the tie X checks it on real workers)',
+        'os._exit(k) is driven with C-int arguments only (outside -2**31 <= k < 2**31 the call raises OverflowError in the worker, '
+        'exit code 1: Model/ExitCode.v exit_arg_ok); workers are killed with terminating signals only (SIGKILL, SIGTERM, SIGUSR1; '
+        'ignored or stopping signals - SIGCHLD, SIGCONT, SIGURG, SIGWINCH, SIGPIPE, SIGXFSZ, SIGSTOP... - do not end a worker: '
+        'ExitCode.terminating_signal)',
         'every started worker terminates (a hanging worker, a dying Manager process and a crash of the parent are not modelled)',
         'failures inside the `finally` block of run_mapping (RunEffects fail points 7 log file, 8 JSON, 9 HDF5) are not worker '
         'failures and outside the statement of C14; point 9 (hdf5_output_path in a missing directory: the only one of the three '
